@@ -86,6 +86,8 @@ func TestVX_C03daemon(t *testing.T) {
 		vxJob{Fans: []vxJobFan{{ID: "fanA", Kind: "hwmon", OrigMode: 1, OrigPwm: 60, Stored: true, MaxPwm: 120}}, Sensor: "hwmon", Curve: "linear", OpChoices: true, Cycles: 3},
 		vxJob{Fans: []vxJobFan{{ID: "fanA", Kind: "file", OrigMode: -1, OrigPwm: 127, Stored: true}}, Sensor: "file", Curve: "linear", OpChoices: true, Cycles: 3},
 		vxJob{Fans: []vxJobFan{{ID: "fanA", Kind: "hwmon", OrigMode: -1, OrigPwm: 90, NoEnable: true, Stored: true}}, Sensor: "file", Curve: "pid", OpChoices: true, Cycles: 3},
+		// a fan driven through external commands (its restore path runs those commands while the daemon shuts down); time-based points
+		vxJob{Fans: []vxJobFan{{ID: "fanA", Kind: "cmd", OrigMode: -1, OrigPwm: 90, Stored: true}}, Sensor: "file", Curve: "linear", OpChoices: false, Cycles: 3},
 		// two fans: op-level points would depend on the tie order of simultaneously woken controllers, so only time-based points
 		vxJob{Fans: []vxJobFan{{ID: "fanA", Kind: "hwmon", OrigMode: 2, OrigPwm: 60, Stored: true}, {ID: "fanB", Kind: "file", OrigMode: -1, OrigPwm: 127, Stored: true}}, Sensor: "hwmon", Curve: "linear", OpChoices: false, Cycles: 3},
 		vxJob{Fans: []vxJobFan{{ID: "fanA", Kind: "hwmon", OrigMode: 2, OrigPwm: 60, Stored: true}, {ID: "fanB", Kind: "hwmon", OrigMode: 0, OrigPwm: 200, Stored: true}}, Sensor: "file", Curve: "func-linear", OpChoices: false, Cycles: 3},
